@@ -283,9 +283,10 @@ impl Env {
                 let nv = if *op == "=" {
                     self.eval(x, depth)?
                 } else {
-                    // bash evaluates the right-hand side first, then reads the variable
-                    let rhs = self.eval(x, depth)?;
+                    // C order as bash implements it: the target's current value is read first, then the
+                    // right-hand side is evaluated (x=5; x += x++ gives 10)
                     let cur = self.get(n, depth)?;
+                    let rhs = self.eval(x, depth)?;
                     apply(&op[..op.len() - 1], cur, rhs)?
                 };
                 self.set(n, nv);
